@@ -25,6 +25,7 @@ func Main() {
 				DepthT:      5,
 				Unmerged:    2,
 				CrashBudget: 1,
+				SyncTree:    true,
 				Assumptions: []string{"renames of a directory into its own subtree are not part of this alphabet (they never return; decided by C18)"},
 			})
 		})
